@@ -23,7 +23,7 @@ type M struct {
 	Name   string
 	Fields []F
 	Nested []M
-	Ext    []F    // extensions declared inside this message: Card carries "ext:<Extendee>"
+	Ext    []F        // extensions declared inside this message: Card carries "ext:<Extendee>"
 	Ranges [][2]int32 // extension ranges
 }
 
